@@ -378,9 +378,41 @@ def run_tasks(ck, tasks, seed, timeout_ms=None):
     return nviol
 
 
+def stop_start_native(ck, prop):
+    """standing native scenario (C02 and C11): the daemon publishes A and B under an attached client, stops CLEANLY (its ShmWriter is
+    dropped - no update is in flight), clients read, the daemon starts again on the same file and publishes C.
+    C02: what clients obtain after the stop is record B, whole - a stop is not a publication, nothing may be written into the record
+    outside the generation protocol.  C11: the generation is unchanged by the stop and by the restart, moves on with the next update and
+    never returns to 0."""
+    rp = common.Replay('debug')
+    out = rp.ask('stopstart')
+    rp.close()
+    ck.cov['evaluations'] += 1
+    ck.cov['native_clean_stop_then_start'] = out[:400]
+    f = dict(x.split('=', 1) for x in out.split()[1:] if '=' in x) if out.startswith('ok') else {}
+    if not f:
+        if out.startswith('panic'):
+            ck.violation('clean-stop-restart', 'publish, stop the daemon cleanly, start it again on the same file: %s' % out[:200], {'cmd': 'stopstart', 'native': out})
+        return
+    B = '200:1:1200:0:200:1'
+    if prop == 'C02':
+        for who in ('attached_client_after_stop', 'new_client_after_stop'):
+            got = f.get(who, '')
+            if got != B and not got.startswith('err_') and not got.startswith('open_'):
+                ck.violation('record-changed-outside-an-update', 'the daemon published record B (as_of 200 s, void_after 1200 s, Synchronized) and stopped cleanly; %s then obtains (as_of, void_after, bound, status) = %s under generation %s - a record the daemon never published in full (the stop rewrote part of the record without going through the generation protocol: record changed by the stop = %s)'
+                             % ('the attached client' if who.startswith('attached') else 'a new client', got, f.get('gen_after_stop'), f.get('record_changed_by_stop')), {'cmd': 'stopstart', 'native': out})
+                return
+    if prop == 'C11':
+        g0, g1, g2, g3 = [int(f.get(k, '-1')) for k in ('gen_before_stop', 'gen_after_stop', 'gen_after_restart', 'gen_after_first_write')]
+        if g1 != g0 or g2 == 0 or g3 == 0 or g3 % 2 == 1 or g2 % 2 == 1 or g3 == g0 or (g2 != g0):
+            ck.violation('clean-stop-restart', 'generation %d after two publications; after a clean stop of the daemon: %d (layout version %s); after the next daemon start on the same file: %d; after its first publication: %d - a published segment keeps its generation through a stop and a start and moves on from there, it never returns to 0'
+                         % (g0, g1, f.get('version_after_stop'), g2, g3), {'cmd': 'stopstart', 'native': out})
+
+
 # ----------------------------------------------------------------------------------- C02
 def check_c02(tier, seed):
     ck = Check('C02', tier, seed)
+    stop_start_native(ck, 'C02')
     P = Programs()
     base_cov(ck, P)
     Ns = [1, 2] if tier == 'quick' else [1, 2, 3, 4]
@@ -503,17 +535,48 @@ def open_race_native(ck):
     return runs
 
 
+def one_field_sequences_native(ck):
+    """standing native scenario: the real writer publishes records one after the other, each differing from its predecessor in exactly
+    ONE field (each field in turn, the status included; then a record identical to its predecessor); after every publication the writer
+    is idle and the real reader (attached since the first publication) must return exactly the record just published"""
+    base = [100, 5, 1100, 0, 7000, 1000, 1]
+    seqs = [base]
+    for i, nv in ((6, 2), (6, 0), (6, 1), (4, 7001), (0, 101), (1, 6), (2, 1101), (3, 1), (5, 1001), (5, 1001), (6, 0), (4, 7001)):
+        r = list(seqs[-1]); r[i] = nv
+        seqs.append(r)
+    rp = common.Replay('debug')
+    toks = [','.join(map(str, r + [1])) for r in seqs]
+    out = rp.ask('seq_publish ' + ' '.join(toks))
+    rp.close()
+    ck.cov['evaluations'] += len(seqs)
+    ck.cov['native_one_field_sequences'] = out[:300]
+    if not out.startswith('ok'):
+        return
+    snaps = [x.split('=', 1)[1] for x in out.split()[1:] if x.startswith('snap')]
+    for k, (got, want) in enumerate(zip(snaps, [','.join(map(str, r)) for r in seqs])):
+        if got != want:
+            prev = ','.join(map(str, seqs[k - 1])) if k else '-'
+            ck.violation('stale-when-idle', 'the real writer publishes %s right after %s (as_of s,ns; void_after s,ns; bound; drift; status): with the writer idle the attached reader returns %s - not the last completed publication (an update that changes only some fields is not taken over in full)'
+                         % (want, prev, got), {'cmd': 'seq_publish ' + ' '.join(toks), 'native': out})
+            return
+
+
 def check_c03(tier, seed):
     ck = Check('C03', tier, seed)
+    # standing native scenarios first: they run whether or not the programs are inside the encodable fragment (a constructor that reads
+    # the segment, a writer that looks into the record it overwrites): without a violation such a tree stays inconclusive
+    open_race_native(ck)
+    if not ck.violations:
+        one_field_sequences_native(ck)
     try:
-        P = Programs()
+        return _check_c03_symbolic(ck, tier, seed)
     except EngineError as e:
-        # the programs are outside the encodable fragment (e.g. a constructor that itself reads the segment): the standing native
-        # scenarios still run; without a violation the check stays inconclusive
-        open_race_native(ck)
         ck.inconclusive.append('EngineError: %s' % e)
         return ck.finish()
-    open_race_native(ck)
+
+
+def _check_c03_symbolic(ck, tier, seed):
+    P = Programs()
     base_cov(ck, P)
     cfgs = [(2, 2)] if tier == 'quick' else [(2, 2), (3, 2), (2, 3), (4, 2), (3, 3)]
     tasks = []
@@ -816,6 +879,7 @@ def value_protocol(ck, P, pr, tier):
 
 def check_c11(tier, seed):
     ck = Check('C11', tier, seed)
+    stop_start_native(ck, 'C11')
     P = Programs()
     base_cov(ck, P)
     pr = Prover(seed)
@@ -1044,10 +1108,23 @@ def open_path_blocking(ck, seed):
             hung = ('trunc%d' % n_, out)
             runs.append({'file_cut_after_bytes': n_, 'out': out[:160]})
     runs.append({'files_cut_after_n_bytes': 'n = 0..17, 40, 71', 'all_returned': hung is None or not hung[0].startswith('trunc')})
+    # the states a daemon that died (or is stopped) during start-up or inside an update leaves the header in
+    for stt in ('nogen', 'wiped', 'oddgen'):
+        out = rp.ask('openlocked none 3000 72 %s' % stt)
+        ck.cov['evaluations'] += 1
+        runs.append({'header_state': stt, 'out': out[:120]})
+        if out.startswith('ok hung') and hung is None:
+            hung = ('state:' + stt, out)
     rp.close()
     ck.cov['native_open_under_lock'] = runs
     if hung:
         kind, out = hung
+        if kind.startswith('state:'):
+            what = {'nogen': 'has its layout version stamped but no publication yet (generation 0): the daemon died, or is stopped, between the end of ShmWriter::new and its first write', 'wiped': 'is freshly wiped (version 0, generation 0)', 'oddgen': 'has an odd generation (the daemon died inside an update)'}[kind[6:]]
+            ck.violation('open-waits-for-the-daemon', 'the segment file %s: a client\'s ShmReader::new() had not returned 3000 ms later - it waits for a daemon that may never come back' % what, {'cmd': 'openlocked none 3000 72 %s' % kind[6:], 'native': out})
+            pr.handled = {n for n, m in pr.failed}
+            ck.absorb(pr)
+            return
         if kind.startswith('trunc'):
             ck.violation('open-spins-on-short-file', 'the segment file ends after %s bytes (the daemon died, or is stopped, part-way through writing it): a client\'s ShmReader::new() had not returned 3000 ms later - it keeps reading for bytes that are not there'
                          % kind[5:], {'cmd': 'openlocked none 3000 %s' % kind[5:], 'native': out})
@@ -1384,6 +1461,14 @@ def check_c04(tier, seed):
 
 def crash_restart_tasks(ck, P, cfgs, tier):
     tasks = []
+    # a constructor that itself writes a record into a segment it takes over (e.g. completes an interrupted update with an "Unknown"
+    # record) makes a publication of its own: the scenarios below number publications by write() calls only and would rank that record
+    # as older than everything.  Not judged here (C11 decides the generation protocol of such a constructor, the native restart chain
+    # and the crash natives still run)
+    for o in P.writer_new_outs:
+        if o.kind == 'return' and 'Ok' in o.value.p and 'wipe' not in [e.kind for e in o.state.trace] and any(e.kind == 'write' for e in o.state.trace):
+            ck.inconclusive.append('ShmWriter::new writes a record of its own into a segment it takes over: the crash/restart scenarios (publications numbered by write() calls) are not applied to it')
+            return tasks
     for a_pubs, b_pubs in cfgs:
         sc = Scenario(P, 'c04a%db%d' % (a_pubs, b_pubs)); sc.init_classes(('A', 'C'))
         for _ in range(a_pubs):
